@@ -63,6 +63,27 @@ pub fn signal_name(s: i32) -> &'static str {
     }
 }
 
+static REPORT_FD: std::sync::atomic::AtomicI32 = std::sync::atomic::AtomicI32::new(-1);
+
+/// From any thread of the child: hand `v` back as the scenario's report and end the child now
+/// (used when the scenario's own thread can never return, e.g. it blocks forever by design).
+pub fn report_and_exit(v: &Value) -> ! {
+    let fd = REPORT_FD.load(std::sync::atomic::Ordering::SeqCst);
+    let s = serde_json::to_vec(v).unwrap_or_default();
+    let mut off = 0;
+    while fd >= 0 && off < s.len() {
+        let n = unsafe { libc::write(fd, s[off..].as_ptr() as *const libc::c_void, s.len() - off) };
+        if n <= 0 {
+            break;
+        }
+        off += n as usize;
+    }
+    unsafe {
+        libc::close(fd);
+        libc::_exit(0)
+    }
+}
+
 /// Run `body` in a forked child; it returns the JSON report.
 pub fn run_contained(timeout_s: u32, body: impl FnOnce() -> Value) -> ChildEnd {
     let mut fds = [0i32; 2];
@@ -76,6 +97,7 @@ pub fn run_contained(timeout_s: u32, body: impl FnOnce() -> Value) -> ChildEnd {
             libc::close(fds[0]);
             libc::alarm(timeout_s);
         }
+        REPORT_FD.store(fds[1], std::sync::atomic::Ordering::SeqCst);
         let v = body();
         let s = serde_json::to_vec(&v).unwrap();
         let mut off = 0;
